@@ -95,6 +95,10 @@ def make_spec(rng, idx=0):
     spec["declared_mid_level"] = feature()
     # configuration features the demo leaves (almost) unused: a TYPED search narrowing, path defaults
     spec["typed_narrowing"] = feature()
+    # a value mapping that lists only the values that ARE renamed on disk (unlisted values pass through unchanged)
+    spec["partial_mapping"] = feature()
+    if spec["partial_mapping"] and len(spec["projects"]) < 2:
+        spec["projects"] = (spec["projects"] + [p for p in ["hamlet", "macbeth", "lear", "othello"] if p not in spec["projects"]])[:2]
     spec["path_defaults"] = feature()
     # documented usage: intermediate types extrapolated from a LEAF type (its name suffix is not its last key)
     spec["extrapolate_from_leaf"] = feature()
@@ -222,17 +226,19 @@ def write_package(spec, directory):
             if bt0:      # searches of ONE leaf type are narrowed to the first project
                 tn["%s__%s_file" % (bt0["name"], bt0["groups"][0])] = "%s=~%s" % (P, spec["projects"][0])
         f.write("typed_search_narrowing = %r\n" % tn)
-    mapping = {P: {p.upper(): p for p in spec["projects"]},
+    renamed = spec["projects"][:1] if spec.get("partial_mapping") else spec["projects"]
+    disk_projects = [p.upper() if p in renamed else p for p in spec["projects"]]
+    mapping = {P: {p.upper(): p for p in renamed},
                T: {bt["folder"]: bt["code"] for bt in spec["basetypes"]},
                S: {v: k for k, v in spec["states"].items()}}
     fs_kp = {}
     for bt in spec["basetypes"]:
         fs_kp[bt["name"]] = {
-            "{%s}" % P: "{%s:%s}" % (P, _closed([p.upper() for p in spec["projects"]])),
+            "{%s}" % P: "{%s:%s}" % (P, _closed(disk_projects)),
             "{%s:%s}" % (T, bt["folder"]): "{%s:%s}" % (T, _closed([bt["folder"]])),
             "{%s}" % S: "{%s:%s}" % (S, _closed(list(spec["states"].values()))),
         }
-    fs_kp["project"] = {"{%s}" % P: "{%s:%s}" % (P, _closed([p.upper() for p in spec["projects"]]))}
+    fs_kp["project"] = {"{%s}" % P: "{%s:%s}" % (P, _closed(disk_projects))}
 
     # the third path configuration has its OWN value vocabulary on disk (other folder names)
     mapping_alt = {P: {p.upper() + "_ARCHIVE": p for p in spec["projects"]},
